@@ -169,22 +169,37 @@ def movedByte (b : Nat) (e : TSInputEdit) : Nat :=
   if b ≥ e.old_end_byte then e.new_end_byte + (b - e.old_end_byte)
   else if b > e.start_byte then e.start_byte else b
 
+/-- Where `ts_range_edit` puts a range END at 32 bits: an open end (`UINT32_MAX`) stays open, a shifted
+end that no longer fits 32 bits becomes the open end (the C code's wrap-around test), otherwise
+`movedByte`. -/
+def movedEndSat (b : Nat) (e : TSInputEdit) : Nat :=
+  if b ≥ e.old_end_byte then
+    if b = 4294967295 then 4294967295
+    else if e.new_end_byte + (b - e.old_end_byte) ≥ 4294967296 then 4294967295
+    else e.new_end_byte + (b - e.old_end_byte)
+  else if b > e.start_byte then e.start_byte else b
+
+/-- … and a range START (no open-end exemption: only the wrap-around test). -/
+def movedStartSat (b : Nat) (e : TSInputEdit) : Nat :=
+  if b ≥ e.old_end_byte then
+    if e.new_end_byte + (b - e.old_end_byte) ≥ 4294967296 then 4294967295
+    else e.new_end_byte + (b - e.old_end_byte)
+  else if b > e.start_byte then e.start_byte else b
+
 /-- Judge for the tree's stored included ranges (property text: "the tree's stored included ranges move
-by the same mapping"): same number of ranges, and for every range inside `range_edit_eq_phi`'s domain
-(ordered, no `UINT32_MAX` sentinel, no 32-bit overflow) both byte ends are the moved bytes.  Returns the
-index of the first offending range. -/
+by the same mapping"): same number of ranges, and for every 32-bit range both byte ends are the moved
+bytes of `range_edit_sat` (open ends stay open, overflow saturates to the open end), and an open end keeps
+its end point.  Returns the index of the first offending range. -/
 def rangesJudge (old new : List TSRange) (e : TSInputEdit) : Option Nat :=
   if old.length ≠ new.length then some old.length else
   let rec go : List TSRange → List TSRange → Nat → Option Nat
     | r :: rs, n :: ns, i =>
-      if r.start_byte ≤ r.end_byte ∧ r.end_byte < 4294967295 ∧ e.new_end_byte + r.end_byte < 4294967296 ∧
-         e.start_byte ≤ e.old_end_byte ∧
-         (n.end_byte ≠ movedByte r.end_byte e ∨ n.start_byte ≠ movedByte r.start_byte e) then some i
-      -- an OPEN end (`UINT32_MAX`, "to the end of the document") stays open with its end point, and the
-      -- start of such a range moves like any other position
+      -- both byte ends, for every 32-bit range and edit (open ends, sentinels and overflow included)
+      if r.start_byte < 4294967296 ∧ r.end_byte < 4294967296 ∧ e.new_end_byte < 4294967296 ∧
+         (n.end_byte ≠ movedEndSat r.end_byte e ∨ n.start_byte ≠ movedStartSat r.start_byte e) then some i
+      -- an OPEN end (`UINT32_MAX`, "to the end of the document") also keeps its end point
       else if r.end_byte = 4294967295 ∧ e.start_byte ≤ e.old_end_byte ∧ e.old_end_byte < 4294967296 ∧
-         e.new_end_byte + r.start_byte < 4294967296 ∧
-         (n.end_byte ≠ 4294967295 ∨ n.end_point ≠ r.end_point ∨ n.start_byte ≠ movedByte r.start_byte e) then some i
+         e.new_end_byte + r.start_byte < 4294967296 ∧ n.end_point ≠ r.end_point then some i
       else go rs ns (i + 1)
     | _, _, _ => none
   go old new 0
